@@ -1154,17 +1154,13 @@ fn gen_chain(rng: &mut Rng, k: u64) -> Vec<Plug> {
 }
 
 // ------------------------------------------------------------------------------------------------ lifecycle equivariance
+/// (lifecycle id, ecu, nr_msgs, start, end | 0 when empty, is_resume)
 type LcTable = Vec<(u64, u64, u64, u64, u64, u64)>;
+type Detection = (Vec<(u32, u64)>, LcTable);
 
-/// real lifecycle detection; canonical result: per forwarded message (index, lifecycle rank), per lifecycle
-/// (rank of first message | big, ecu class, start, end, nr_msgs, is_resume)
-fn detect(msgs: Vec<DltMessage>) -> Result<(Vec<(u32, u64)>, LcTable), String> {
+/// real lifecycle detection: per forwarded message (index, lifecycle id), the final table sorted by id
+fn detect(msgs: Vec<DltMessage>) -> Result<Detection, String> {
     catch_loc(move || {
-        let mut ecu_class: HashMap<u32, u64> = HashMap::new();
-        for m in &msgs {
-            let n = ecu_class.len() as u64;
-            ecu_class.entry(c4(&m.ecu)).or_insert(n);
-        }
         let (tx, rx) = std::sync::mpsc::channel();
         for m in msgs {
             tx.send(m).unwrap();
@@ -1179,25 +1175,12 @@ fn detect(msgs: Vec<DltMessage>) -> Result<(Vec<(u32, u64)>, LcTable), String> {
             Ok(())
         });
         let outs = out.into_inner().unwrap();
-        let mut rank: HashMap<u32, u64> = HashMap::new();
-        let mut seq = vec![];
-        for m in &outs {
-            let n = rank.len() as u64;
-            let r = *rank.entry(m.lifecycle).or_insert(n);
-            seq.push((m.index, r));
-        }
+        let seq: Vec<(u32, u64)> = outs.iter().map(|m| (m.index, m.lifecycle as u64)).collect();
         let mut table: LcTable = vec![];
         if let Some(rd) = lcs_r.read() {
             for (id, b) in &rd {
                 let lc = b.get_one().unwrap();
-                table.push((
-                    rank.get(id).cloned().unwrap_or(u32::MAX as u64),
-                    ecu_class.get(&c4(&lc.ecu)).cloned().unwrap_or(u32::MAX as u64),
-                    lc.start_time,
-                    lc.end_time(),
-                    lc.nr_msgs as u64,
-                    lc.is_resume() as u64,
-                ));
+                table.push((*id as u64, c4(&lc.ecu) as u64, lc.nr_msgs as u64, lc.start_time, if lc.nr_msgs == 0 { 0 } else { lc.end_time() }, lc.is_resume() as u64));
             }
         }
         table.sort();
@@ -1205,15 +1188,32 @@ fn detect(msgs: Vec<DltMessage>) -> Result<(Vec<(u32, u64)>, LcTable), String> {
     })
 }
 
-fn equiv_obs(r: &Result<(Vec<(u32, u64)>, LcTable), String>) -> O {
+/// lifecycle ids (global counter) replaced by their rank among the ids of the run; optionally the ECU label erased
+fn canon(r: &Result<Detection, String>, with_ecu: bool) -> O {
     match r {
         Err(_) => O::T(vec![O::L(1)]),
-        Ok((seq, table)) => O::T(vec![
-            O::L(0),
-            O::T(seq.iter().map(|(i, l)| O::T(vec![O::n(*i), O::n(*l)])).collect()),
-            O::T(table.iter().map(|t| O::T(vec![O::n(t.0), O::n(t.1), O::n(t.2), O::n(t.3), O::n(t.4), O::n(t.5)])).collect()),
-        ]),
+        Ok((seq, table)) => {
+            let ids: BTreeSet<u64> = seq.iter().map(|x| x.1).chain(table.iter().map(|t| t.0)).collect();
+            let rank = |id: u64| ids.iter().filter(|y| **y < id).count() as u64;
+            O::T(vec![
+                O::L(0),
+                O::T(seq.iter().map(|(i, l)| O::T(vec![O::n(*i), O::n(rank(*l))])).collect()),
+                O::T(table.iter().map(|t| O::T(vec![O::n(rank(t.0)), O::n(if with_ecu { t.1 } else { 0 }), O::n(t.2), O::n(t.3), O::n(t.4), O::n(t.5)])).collect()),
+            ])
+        }
     }
+}
+
+fn lc_spec(m: &DltMessage) -> String {
+    format!(
+        "({}, {}, {}, {}, {}, {})",
+        m.index,
+        c4(&m.ecu),
+        m.reception_time_us,
+        m.timestamp_dms,
+        cbool(m.standard_header.has_timestamp()),
+        cbool(m.is_ctrl_request())
+    )
 }
 
 fn gen_lc_stream(rng: &mut Rng, n: u64) -> Vec<DltMessage> {
@@ -1239,11 +1239,9 @@ fn gen_lc_stream(rng: &mut Rng, n: u64) -> Vec<DltMessage> {
         let mut m = match rng.below(8) {
             0 => {
                 let big = rng.chance(1, 4);
-                let (mut m, _) = gen_ctrl(rng, i as u32, now, ts, ecu, big);
-                // the detector's own get(0..4).unwrap() (C03, repaired separately) is not C19's subject
-                if m.is_ctrl_response() && m.is_verbose() {
-                    m.payload = vec![];
-                }
+                // includes verbose control responses with a short first argument (both the detector and the
+                // anonymiser used to panic on those; repaired in /repo)
+                let (m, _) = gen_ctrl(rng, i as u32, now, ts, ecu, big);
                 m
             }
             1 => mk(i as u32, now, ecu, 0, 0x21, Some((0x41, 0, ch(b"APP1"), ch(b"CTX1"))), vec![]), // no timestamp
@@ -1271,11 +1269,12 @@ fn record_equiv(sink: &mut Sink, msgs: Vec<DltMessage>) {
     let orig = detect(msgs.clone());
     let anon = run_anon(msgs);
     let fail = |c: &str, d: String| Verdict::Fail { clause: c.into(), detail: d };
+    let mut anon_specs = vec![];
     let (obs, verdict, tags) = match anon {
         Err(e) => (O::T(vec![O::T(vec![O::L(7)]), O::T(vec![O::L(8)])]), fail("anon_no_panic", e), vec!["equiv".to_string()]),
         Ok(am) => {
+            anon_specs = am.iter().map(lc_spec).collect();
             let anon_lc = detect(am);
-            let (a, b) = (equiv_obs(&orig), equiv_obs(&anon_lc));
             let mut tags = vec!["equiv".to_string()];
             if let Ok((_, t)) = &orig {
                 tags.push(format!("equiv_lifecycles{}", t.len().min(5)));
@@ -1285,14 +1284,15 @@ fn record_equiv(sink: &mut Sink, msgs: Vec<DltMessage>) {
             } else {
                 tags.push("equiv_detector_panics_on_both".into());
             }
-            let v = if a == b {
+            // the property: same boundaries and counts (ECU labels aside)
+            let v = if canon(&orig, false) == canon(&anon_lc, false) {
                 Verdict::Ok
             } else {
                 let d = match (&orig, &anon_lc) {
                     (Ok(_), Err(e)) => format!("detection panics only on the anonymised stream: {}", e),
                     (Err(e), Ok(_)) => format!("detection panics only on the original stream: {}", e),
                     (Ok((s1, t1)), Ok((s2, t2))) => {
-                        if s1 != s2 {
+                        if canon(&Ok((s1.clone(), vec![])), false) != canon(&Ok((s2.clone(), vec![])), false) {
                             format!("message -> lifecycle assignment differs: {:?} vs {:?}", s1, s2)
                         } else {
                             format!("lifecycle tables differ: {:?} vs {:?}", t1, t2)
@@ -1302,7 +1302,7 @@ fn record_equiv(sink: &mut Sink, msgs: Vec<DltMessage>) {
                 };
                 fail("lifecycles_equivariant", d)
             };
-            (O::T(vec![a, b]), v, tags)
+            (O::T(vec![canon(&orig, true), canon(&anon_lc, true)]), v, tags)
         }
     };
     let nlc = match &orig {
@@ -1311,10 +1311,11 @@ fn record_equiv(sink: &mut Sink, msgs: Vec<DltMessage>) {
     };
     let id = sink.next_id();
     let jm: Vec<Value> = ins.iter().map(msg_json).collect();
+    let input_coq = format!("(CEquiv {} {})", clist(&ins.iter().map(lc_spec).collect::<Vec<_>>()), clist(&anon_specs));
     sink.push(Case {
         id,
-        key: serde_json::to_string(&jm).unwrap(),
-        input_coq: "CEquiv".into(),
+        key: input_coq.clone(),
+        input_coq,
         input_json: json!({"v": "equiv", "msgs": jm}),
         obs,
         verdict,
@@ -1362,12 +1363,14 @@ fn gen_loop_case(rng: &mut Rng) -> (Vec<(u8, Vec<Act>)>, Option<usize>, Vec<DltM
         })
         .collect();
     let n = rng.size(8);
+    // indices are unique within a stream (the oracle identifies messages by index); one may be u32::MAX
+    let max_at = if rng.chance(1, 4) { rng.below(n + 1) } else { u64::MAX };
     let msgs: Vec<DltMessage> = (0..n)
         .map(|i| {
             let ext = if rng.chance(1, 2) { None } else { Some((0x41u8, 1u8, ch(b"APP1"), ch(b"CTX1"))) };
             let pl = rng.size(3);
             let mut m = mk(
-                if rng.chance(1, 20) { u32::MAX } else { 10 + i as u32 },
+                if i == max_at { u32::MAX } else { 10 + i as u32 },
                 if rng.chance(1, 20) { u64::MAX } else { 1_000_000 + i * 10 },
                 0x4543_5530,
                 if rng.chance(1, 10) { u32::MAX } else { i as u32 },
